@@ -1,8 +1,11 @@
+import logging
 from typing import Optional, Type
 
 from indi.client.events import ValueUpdate
 from indi.device import values
 from indi.message import def_parts, one_parts
+
+logger = logging.getLogger(__name__)
 
 
 class Element:
@@ -87,10 +90,11 @@ class BLOB(Element):
     new_message_class = one_parts.OneBLOB
 
     def set_value_from_message(self, msg):
-        blob_value = values.BLOB.from_base64(msg.value or "", msg.format)
-        assert (
-            int(msg.size) == blob_value.size
-        ), f"Blob size differs: {msg.size} declared vs {blob_value.size} measured"
+        try:
+            blob_value = values.BLOB.from_base64(msg.value or "", msg.format)
+        except ValueError:
+            logger.warning("BLOB %s: ignoring undecodable payload", self.name)
+            return
 
         self._value = blob_value
 
